@@ -71,6 +71,8 @@ type CallInfo struct {
 	Changed   bool   `json:"changed,omitempty"` // stored bytes changed
 	Err       string `json:"err,omitempty"`     // canonical error class returned to the caller
 	Propagation string `json:"prop,omitempty"`
+
+	editsManagedFields bool
 }
 
 func (c CallInfo) IsWrite() bool {
@@ -89,6 +91,7 @@ type entry struct {
 	obj     map[string]any            // full object incl. apiVersion/kind/metadata
 	applied map[string]map[string]any // SSA: manager -> last applied config (main resource)
 	appliedStatus map[string]map[string]any
+	bfa           bool // managedFields were cleared: the next apply records "before-first-apply"
 }
 
 // Indexer extracts index values for MatchingFields list options.
@@ -235,6 +238,7 @@ func (s *Store) begin(c *CallInfo) (Outcome, error) {
 	s.mu.Lock()
 	if s.crashed {
 		s.mu.Unlock()
+		c.Outcome = "dead" // the process is gone: this call never happened and is not logged
 		return CrashBefore, ErrCrashed
 	}
 	c.Index = s.Calls
@@ -285,6 +289,9 @@ func errClass(err error) string {
 }
 
 func (s *Store) end(c *CallInfo, o Outcome, err error) error {
+	if c.Outcome == "dead" {
+		return err
+	}
 	if o == CrashAfter {
 		s.crashed = true
 		err = ErrCrashed
@@ -357,7 +364,35 @@ func (s *Store) Seed(obj runtime.Object) {
 	if _, ok := md["creationTimestamp"]; !ok {
 		md["creationTimestamp"] = s.now()
 	}
+	if _, ok := md["managedFields"]; !ok {
+		// every object of a real cluster has managed fields; the default
+		// (client-side) manager of Crossplane is "crossplane".
+		touchManager(md, "crossplane", "Update", "")
+	}
 	s.put(keyOf(m, gvk.GroupKind()), &entry{obj: m, applied: map[string]map[string]any{}, appliedStatus: map[string]map[string]any{}})
+}
+
+// SeedSSA stores an object as if `manager` had server-side applied exactly its
+// current content (spec/metadata labels, annotations, ownerReferences).
+func (s *Store) SeedSSA(obj runtime.Object, manager string) {
+	s.Seed(obj)
+	m, gvk, _ := s.toMap(obj)
+	s.mu.Lock()
+	defer s.mu.Unlock()
+	k := keyOf(m, gvk.GroupKind())
+	e := s.objs[k]
+	cfg := deepCopyMap(m)
+	delete(cfg, "status")
+	delete(cfg, "apiVersion")
+	delete(cfg, "kind")
+	cmd := mdOf(cfg)
+	for _, f := range []string{"uid", "resourceVersion", "creationTimestamp", "generation", "managedFields", "deletionTimestamp", "finalizers"} {
+		delete(cmd, f)
+	}
+	e.applied[manager] = cfg
+	md := mdOf(e.obj)
+	delete(md, "managedFields")
+	touchManager(md, manager, "Apply", "")
 }
 
 // Remove deletes an object out of band (environment action).
@@ -632,8 +667,12 @@ func (s *Store) Create(ctx context.Context, obj client.Object, opts ...client.Cr
 	}
 	delete(md, "deletionTimestamp")
 	if c.DryRun {
+		// A dry-run create is answered before anything reaches storage: the
+		// reply carries a uid but NO resourceVersion (kube-apiserver
+		// DryRunnableStorage.Create copies the input), so the same object can
+		// be created for real afterwards (revision.APIEstablisher does that).
 		md["uid"] = "dry-run"
-		md["resourceVersion"] = "0"
+		delete(md, "resourceVersion")
 		s.mu.Unlock()
 		_ = s.fromMap(m, obj)
 		return s.end(&c, o, nil)
@@ -643,6 +682,8 @@ func (s *Store) Create(ctx context.Context, obj client.Object, opts ...client.Cr
 	md["resourceVersion"] = s.nextRV()
 	md["creationTimestamp"] = s.now()
 	md["generation"] = int64(1)
+	delete(md, "managedFields")
+	touchManager(md, "crossplane", "Update", "")
 	s.put(k, &entry{obj: deepCopyMap(m), applied: map[string]map[string]any{}, appliedStatus: map[string]map[string]any{}})
 	c.Applied, c.Changed = true, true
 	s.mu.Unlock()
@@ -650,6 +691,22 @@ func (s *Store) Create(ctx context.Context, obj client.Object, opts ...client.Cr
 		_ = s.fromMap(m, obj)
 	}
 	return s.end(&c, o, nil)
+}
+
+// touchManager records a field manager entry in metadata.managedFields.
+func touchManager(md map[string]any, mgr, op, sub string) {
+	mf, _ := md["managedFields"].([]any)
+	for _, x := range mf {
+		xm, _ := x.(map[string]any)
+		if xm != nil && xm["manager"] == mgr && xm["operation"] == op && strOf(xm, "subresource") == sub {
+			return
+		}
+	}
+	e := map[string]any{"manager": mgr, "operation": op}
+	if sub != "" {
+		e["subresource"] = sub
+	}
+	md["managedFields"] = append(mf, e)
 }
 
 // finalizeIfDone removes an object that is terminating and has no finalizers. Lock held.
@@ -671,7 +728,11 @@ func (s *Store) finalizeIfDone(k objKey) {
 func (s *Store) commit(k objKey, e *entry, m map[string]any, c *CallInfo) {
 	// immutable metadata
 	md, old := mdOf(m), mdOf(e.obj)
-	for _, f := range []string{"uid", "creationTimestamp", "deletionTimestamp", "generation"} {
+	fixed := []string{"uid", "creationTimestamp", "deletionTimestamp", "generation"}
+	if !c.editsManagedFields {
+		fixed = append(fixed, "managedFields")
+	}
+	for _, f := range fixed {
 		if v, ok := old[f]; ok {
 			md[f] = v
 		} else {
@@ -687,6 +748,19 @@ func (s *Store) commit(k objKey, e *entry, m map[string]any, c *CallInfo) {
 		return
 	}
 	c.Changed = true
+	if !c.editsManagedFields {
+		mgr, op := c.Manager, "Update"
+		if c.PatchType == "apply" {
+			op = "Apply"
+		} else if mgr == "" {
+			mgr = "crossplane"
+		}
+		touchManager(md, mgr, op, c.Sub)
+		if c.PatchType == "apply" && e.bfa {
+			touchManager(md, "before-first-apply", "Update", "")
+			e.bfa = false
+		}
+	}
 	if !reflect.DeepEqual(m["spec"], e.obj["spec"]) {
 		if g, ok := old["generation"].(int64); ok {
 			md["generation"] = g + 1
@@ -849,6 +923,25 @@ func (s *Store) patch(obj client.Object, patch client.Patch, po *client.PatchOpt
 		next = map[string]any{}
 		_ = json.Unmarshal(res, &next)
 		next = normalize(next)
+		if strings.Contains(string(data), "/metadata/managedFields") {
+			c.editsManagedFields = true
+			nmd := mdOf(next)
+			if mf, _ := nmd["managedFields"].([]any); len(mf) == 1 {
+				if em, _ := mf[0].(map[string]any); em != nil && len(em) == 0 {
+					// all managers cleared
+					delete(nmd, "managedFields")
+					e.applied = map[string]map[string]any{}
+					e.appliedStatus = map[string]map[string]any{}
+					e.bfa = true
+				}
+			}
+		}
+		if nmd := mdOf(next); true {
+			if rv := strOf(nmd, "resourceVersion"); rv != "" && rv != strOf(mdOf(e.obj), "resourceVersion") {
+				s.mu.Unlock()
+				return s.end(&c, o, conflict)
+			}
+		}
 	case "apply":
 		var cfg map[string]any
 		if err := json.Unmarshal(data, &cfg); err != nil {
@@ -906,7 +999,12 @@ func (s *Store) patch(obj client.Object, patch client.Patch, po *client.PatchOpt
 			md["resourceVersion"] = s.nextRV()
 			md["creationTimestamp"] = s.now()
 			md["generation"] = int64(1)
-			ne := &entry{obj: normalize(m), applied: map[string]map[string]any{po.FieldManager: deepCopyMap(cfg)}, appliedStatus: map[string]map[string]any{}}
+			touchManager(md, po.FieldManager, "Apply", "")
+			acfg := deepCopyMap(cfg)
+			delete(acfg, "status")
+			delete(acfg, "apiVersion")
+			delete(acfg, "kind")
+			ne := &entry{obj: normalize(m), applied: map[string]map[string]any{po.FieldManager: acfg}, appliedStatus: map[string]map[string]any{}}
 			s.put(k, ne)
 			c.Applied, c.Changed = true, true
 			res := deepCopyMap(ne.obj)
